@@ -3,6 +3,9 @@ package main
 import (
 	"encoding/hex"
 	"fmt"
+	"go/ast"
+	"go/parser"
+	"go/token"
 	"os"
 	"os/exec"
 	"path/filepath"
@@ -219,10 +222,43 @@ func goConstExpr(name string, ctype string) string {
 	return "driver.ConstInfo(" + name + ")"
 }
 
-// registrySource writes the registry placed inside a generated package.
+// declaredNames returns the top-level identifiers a Go source declares.
+func declaredNames(src string) map[string]bool {
+	out := map[string]bool{}
+	fset := token.NewFileSet()
+	f, err := parser.ParseFile(fset, "gen.go", src, 0)
+	if err != nil {
+		return out
+	}
+	for _, d := range f.Decls {
+		switch x := d.(type) {
+		case *ast.FuncDecl:
+			if x.Recv == nil {
+				out[x.Name.Name] = true
+			}
+		case *ast.GenDecl:
+			for _, sp := range x.Specs {
+				switch y := sp.(type) {
+				case *ast.TypeSpec:
+					out[y.Name.Name] = true
+				case *ast.ValueSpec:
+					for _, n := range y.Names {
+						out[n.Name] = true
+					}
+				}
+			}
+		}
+	}
+	return out
+}
+
+// registrySource writes the registry placed inside a generated package. Constants the
+// generated source does not declare are left out (the deciders then report them missing)
+// instead of breaking the driver build.
 func registrySource(p *GenPkg) string {
 	var sb strings.Builder
 	priv := p.Opts.Private
+	have := declaredNames(p.Src)
 	recs := recordNames(p.S)
 	sb.WriteString("package " + p.Name + "\n\nimport (\n")
 	if len(recs) > 0 {
@@ -246,17 +282,26 @@ func registrySource(p *GenPkg) string {
 		switch d.Kind {
 		case "const":
 			n := expose(d.Name, priv)
+			if !have[n] {
+				continue
+			}
 			sb.WriteString(fmt.Sprintf("\tdriver.RegisterConst(%q, %q, %s)\n", p.Name, "const:"+d.Name, goConstExpr(n, d.CType)))
 		case "enum":
 			T := expose(d.Name, priv)
+			if !have[T] {
+				continue
+			}
 			sb.WriteString(fmt.Sprintf("\tdriver.RegisterConst(%q, %q, driver.ConstInfo(%s(0)))\n", p.Name, "enumtype:"+d.Name, T))
 			for _, o := range d.Options {
+				if !have[T+"_"+o.Name] {
+					continue
+				}
 				sb.WriteString(fmt.Sprintf("\tdriver.RegisterConst(%q, %q, driver.ConstInfo(%s_%s))\n", p.Name, "enum:"+d.Name+"."+o.Name, T, o.Name))
 			}
 		}
 	}
 	for _, d := range p.S.Defs {
-		if d.OpCode != nil && (d.Kind == "struct" || d.Kind == "message" || d.Kind == "union") {
+		if d.OpCode != nil && (d.Kind == "struct" || d.Kind == "message" || d.Kind == "union") && have[expose(d.Name, priv)+"OpCode"] {
 			sb.WriteString(fmt.Sprintf("\tdriver.RegisterConst(%q, %q, driver.ConstInfo(uint64(%sOpCode)))\n", p.Name, "opcode:"+d.Name, expose(d.Name, priv)))
 		}
 	}
